@@ -551,7 +551,7 @@ CHECK = Check(
         "unicodedata.normalize('NFKD', .) is an opaque parameter of the secure_filename model; the only law used (idempotence theorem) is that it is the identity on ASCII text; the harness computes the fold with unicodedata exactly as the code does",
         "the file system is outside the model: os.path.isfile enters Model/StaticFiles.lean as an arbitrary predicate (theorem served_path_inside_root holds for every such predicate); stream static-files passes the list of existing regular files; symbolic links inside the root are out of scope (safe_join is purely lexical)",
         "containment is lexical: 'inside' means the segments of normpath(result) extend the segments of normpath(base) without '..' and with the same root ('', '/', '//')",
-        "safe_join is regenerated from the source by tools/py2lean.py (Gen/PyFns_Paths.lean) on every run and proved equal to the hand model safeJoinWith for all inputs (Props/C14T, containment restated on the translated definition); posixpath.normpath/join/isabs stay the hand models, the other CPython primitives the translated code calls are modelled in Util/PyPrelude.lean and validated by stream prelude-kernels",
+        "safe_join and secure_filename (whole function; NFKD opaque, the Windows branch decided at generation time) are regenerated from the source by tools/py2lean.py (Gen/PyFns_Paths.lean) on every run and proved equal to the hand models safeJoinWith / secureFilename for all inputs (Props/C14T, containment and charset restated on the translated definitions); posixpath.normpath/join/isabs stay the hand models, the other CPython primitives the translated code calls are modelled in Util/PyPrelude.lean and validated by stream prelude-kernels",
     ],
     trusted_extra=["CPython posixpath / str.split / str.strip / re semantics for the modelled primitives (validated by the streams, not verified)"],
     quick_budget=4000,
